@@ -228,6 +228,20 @@ func c4NestedSingle(e *c4Expr) bool {
 	return chains == 1
 }
 
+// fragment of C04_default_pre_nested (Expr.PreNested): `pre & (t1 | … | tn)`, pre mark-free,
+// the terms mark-free below their own mark
+func c4PreNested(e *c4Expr) bool {
+	if e.kind != 1 || e.r.kind != 2 || c4HasMark(e.l) {
+		return false
+	}
+	for _, t := range e.r.terms {
+		if c4HasMark(t.e) {
+			return false
+		}
+	}
+	return true
+}
+
 // shape classes of the known deviations (checked on every node of the expression)
 func c4Shape(e *c4Expr) (collapse, multiMarked, markedNested bool) {
 	var walk func(e *c4Expr)
@@ -549,6 +563,37 @@ func (u *c4Universe) hasBound(e *c4Expr) bool {
 	return false
 }
 
+// does e contain a closed struct atom
+func (u *c4Universe) hasClosed(e *c4Expr) bool {
+	switch e.kind {
+	case 0:
+		return strings.HasPrefix(u.src[e.atom], "close(")
+	case 1:
+		return u.hasClosed(e.l) || u.hasClosed(e.r)
+	}
+	for _, t := range e.terms {
+		if u.hasClosed(t.e) {
+			return true
+		}
+	}
+	return false
+}
+
+// number of disjunctions in e
+func c4NumDisj(e *c4Expr) int {
+	switch e.kind {
+	case 0:
+		return 0
+	case 1:
+		return c4NumDisj(e.l) + c4NumDisj(e.r)
+	}
+	n := 1
+	for _, t := range e.terms {
+		n += c4NumDisj(t.e)
+	}
+	return n
+}
+
 // does the transcribed algorithm deviate from the spec on e
 func (u *c4Universe) refDeviates(e *c4Expr) bool {
 	mv, md := u.refModel(e)
@@ -566,6 +611,9 @@ var c4Atoms = []string{
 	"1", "2", "3", `"a"`, `"b"`, "true", "null",
 	"int", "string", "number", ">1", "<3", ">=2",
 	"{a: 1}", "{a: 2}", "{a: int}", "{b: 1}",
+	// closed structs: exercise the closedness comparison of appendDisjunct's equality
+	// (Equal with CheckStructural: IsClosedStruct)
+	"close({a: 1})", "close({a: int})", "close({b: 1})",
 }
 
 // canonical text of a value of the universe: struct fields sorted by label
@@ -577,7 +625,13 @@ func c4Key(v cue.Value) string {
 				fs = append(fs, it.Selector().String()+": "+c4Key(it.Value()))
 			}
 			sort.Strings(fs)
-			return "{" + strings.Join(fs, ", ") + "}"
+			k := "{" + strings.Join(fs, ", ") + "}"
+			// closedness is part of the identity of a struct value (`{a: 1}` and
+			// `close({a: 1})` are different elements); the key is valid CUE source
+			if !v.Allows(cue.Str("zzzz")) {
+				k = "close(" + k + ")"
+			}
+			return k
 		}
 	}
 	return strings.Join(strings.Fields(fmt.Sprint(v)), " ")
@@ -726,6 +780,7 @@ type c4Obs struct {
 	acc, dacc  string
 	cls        string
 	panicked   bool
+	daccSplit  bool // Default().Eval() and the per-disjunct probe of the default disagree
 }
 
 func c4SortedMasks(ms []*big.Int) string {
@@ -751,10 +806,16 @@ func (u *c4Universe) observe(w *c4Worker, src string) (o c4Obs) {
 	o.acc = w.accept(v).String()
 	d, has := v.Default()
 	o.has = has
+	var daccEval *big.Int
 	if has {
 		// NB: the vertex Default() returns does not unify correctly as it is
-		// ((*1|2).Default().Unify(2) yields 1 without error); Eval() first.
-		o.dacc = w.accept(d.Eval()).String()
+		// ((*1|2).Default().Unify(2) yields 1 without error), and Eval() of it LOSES THE
+		// CLOSEDNESS of a closed struct default ((close({a: 1}) | *close({a: int})).Default()
+		// .Eval().Unify({a: 1, b: 1}) succeeds).  The default is therefore probed disjunct by
+		// disjunct below (Disjunction.Values[:NumDefaults], each unified with every probe);
+		// the Eval() route is kept and must agree whenever no closed struct is involved.
+		daccEval = w.accept(d.Eval())
+		o.dacc = daccEval.String()
 	} else {
 		o.dacc = o.acc
 	}
@@ -779,11 +840,35 @@ func (u *c4Universe) observe(w *c4Worker, src string) (o c4Obs) {
 		}
 		if dj, ok := vx.BaseValue.(*adt.Disjunction); ok {
 			var vs, ds []*big.Int
+			dd := new(big.Int)
+			closedDefault := false
 			for i, x := range dj.Values {
 				m := maskOf(x)
 				vs = append(vs, m)
 				if i < dj.NumDefaults {
 					ds = append(ds, m)
+					xv := value.Make(oc, x)
+					dd.Or(dd, w.accept(xv))
+					if xv.IncompleteKind() == cue.StructKind && !xv.Allows(cue.Str("zzzz")) {
+						closedDefault = true
+					}
+				}
+			}
+			if has && dj.NumDefaults > 0 {
+				if closedDefault {
+					// neither Default().Eval() nor the disjunct vertex itself enforces the
+					// closedness of a closed struct under Unify (Allows does report it): the
+					// probes a closed default accepts are taken from the universe's meet table
+					// (computed with the implementation's unification of freshly compiled
+					// values) for the elements the default disjuncts are identified as
+					dd = new(big.Int)
+					for _, m := range ds {
+						dd.Or(dd, m)
+					}
+					dd.And(dd, u.pbits)
+					o.dacc = dd.String()
+				} else if daccEval != nil && dd.Cmp(daccEval) != 0 {
+					o.daccSplit = true // the two public routes disagree without closedness being involved
 				}
 			}
 			os := make([]string, len(vs))
@@ -857,6 +942,7 @@ var c4Families = [][]string{
 	{"2", "3", "<3", ">=2", "number"},
 	{"{a: 1}", "{a: 2}", "{a: int}", "{b: 1}", "null"},
 	{"1", `"a"`, "true", "null", "{a: 1}"},
+	{"{a: 1}", "close({a: 1})", "{a: int}", "close({a: int})", "{b: 1}"},
 }
 
 // all disjunctions of width 2..w over the pool with every marking; ascending=true keeps
@@ -958,6 +1044,12 @@ func runC04(c *Cfg) {
 		And(D(T(A("{a: 1}")), T(A("{b: 1}"))), A("{a: 1}")),
 		And(D(T(A("{a: 1}")), M(A("{b: 1}"))), D(T(A("{a: 1}")), M(A("{b: 1}")))),
 		And(D(M(A("true")), T(A("null"))), D(T(A("true")), T(A("null")))),
+		// closedness in the duplicate elimination: open and closed are different disjuncts
+		D(T(A("{a: 1}")), T(A("close({a: 1})"))), D(T(A("{a: 1}")), M(A("close({a: 1})"))),
+		D(M(A("{a: 1}")), T(A("close({a: 1})"))), D(T(A("close({a: 1})")), M(A("close({a: 1})"))),
+		And(D(T(A("{a: 1}")), M(A("close({a: 1})"))), D(T(A("{a: int}")), T(A("{b: 1}")))),
+		And(D(T(A("{a: int}")), T(A("{b: 1}"))), D(T(A("{a: 1}")), M(A("close({a: 1})")))),
+		And(D(T(A("close({a: int})")), M(A("{a: int}"))), D(T(A("{a: 1}")), T(A("close({a: 1})")))),
 	}
 	exprs = append(exprs, corpus...)
 
@@ -1116,6 +1208,7 @@ func runC04(c *Cfg) {
 		obs        c4Obs
 		nn, flat   bool
 		boundy     bool
+		closedLeft bool
 		tag        string
 		swapOK     int // 0 not applicable, 1 ok, 2 differs
 		swapSrc    string
@@ -1165,6 +1258,15 @@ func runC04(c *Cfg) {
 				if rs.nn && (u.refDeviates(e) || rs.boundy) {
 					rs.tag = shapeTag(e)
 				}
+				// known finding closed-struct-in-left-operand: the closedness of a closed struct
+				// disjunct that is part of the accumulated LEFT operand of a cross product (an
+				// earlier disjunction of the node, or the enclosing disjunct of a nested one) is
+				// enforced late and ignored by the duplicate elimination.  Shape: a closed
+				// struct atom and at least two disjunctions.
+				rs.closedLeft = u.hasClosed(e) && c4NumDisj(e) >= 2
+				if rs.closedLeft {
+					rs.tag = "closed-struct-in-left-operand"
+				}
 				mv, _ := u.refModel(e)
 				rs.nontrivial = c4HasMark(e) && len(mv) > 0
 				// laws evaluated on the implementation alone, on a sample
@@ -1184,6 +1286,9 @@ func runC04(c *Cfg) {
 							if !refSame(e, sw) || u.hasBound(e) {
 								rs.swapTag = shapeTag(e)
 							}
+							if rs.closedLeft {
+								rs.swapTag = "closed-struct-in-left-operand"
+							}
 						}
 					}
 					if e.kind == 2 { // a duplicate and a failed disjunct change nothing
@@ -1197,6 +1302,9 @@ func runC04(c *Cfg) {
 							rs.dupOK = 2
 							if !refSame(e, dup) || u.hasBound(e) {
 								rs.dupTag = shapeTag(e)
+							}
+							if rs.closedLeft {
+								rs.dupTag = "closed-struct-in-left-operand"
 							}
 						}
 					}
@@ -1216,26 +1324,38 @@ func runC04(c *Cfg) {
 			continue
 		}
 		o := rs.obs
+		if o.daccSplit {
+			c.Direct(false, "", "Default().Eval() and the disjunct-by-disjunct probe of the default disagree (no closed struct involved): "+rs.src, rs.src)
+		}
+		if u.hasClosed(e) {
+			c.Count("contains-closed-struct")
+		}
 		implModel := fmt.Sprintf("vals=%s defs=%s has=%v acc=%s dacc=%s cls=%s", o.vals[0], o.defs[0], o.has, o.acc, o.dacc, o.cls)
 		implSpec := fmt.Sprintf("acc=%s dacc=%s cls=%s", o.acc, o.dacc, o.cls)
 		if !c.Focus {
 			cl := "I"
-			if rs.flat || (!rs.boundy && (c4MarkFree(e) || c4NestedSingle(e))) {
+			if rs.flat || (!rs.boundy && (c4MarkFree(e) || c4NestedSingle(e) || c4PreNested(e))) {
 				// inside the proved fragments (C04_default_partial, C04_default_unmarked,
-				// C04_default_nested_scalars) the model's answer is proved to be the spec's
+				// C04_default_nested_scalars, C04_default_pre_nested) the model's answer is proved to be the spec's
 				cl = "O"
 				if !rs.flat {
 					c.Count("fragment:nested-proved")
 				}
 			}
-			if rs.flat || !rs.boundy {
+			if rs.closedLeft {
+				// only the spec comparison, under the finding's class
+				c.Count("closed-struct-with-two-disjunctions(spec only, known class)")
+			} else if rs.flat || !rs.boundy {
 				// (expressions with marks nested inside marked disjunctions are outside the
 				// SPEC claim, but the transcription follows the implementation there too)
 				c.Op(cl, "model "+rs.rpn+" "+cb, implModel)
 				// Disjunction.Values element by element in the implementation's order:
 				// appendDisjunct's insertion order + finalizeDisjunctions' swap loop
-				c.Op("I", "order "+rs.rpn, o.order)
-				c.Count("order-compared")
+				// (every case in the thorough tier, every second one in the quick tier)
+				if c.Thorough() || i%2 == 0 {
+					c.Op("I", "order "+rs.rpn, o.order)
+					c.Count("order-compared")
+				}
 				if !rs.nn {
 					c.Count("model-compared-with-nested-marks")
 				}
@@ -1268,7 +1388,7 @@ func runC04(c *Cfg) {
 						}
 					}
 				}
-				c.Op("I", "class "+rs.rpn, fmt.Sprintf("wf=true nn=%v flat=%v chains=%d marked=%d markfree=%v nested1=%v", rs.nn, flatConj && nm <= 1, ch, nm, c4MarkFree(e), c4NestedSingle(e)))
+				c.Op("I", "class "+rs.rpn, fmt.Sprintf("wf=true nn=%v flat=%v chains=%d marked=%d markfree=%v nested1=%v prenested=%v", rs.nn, flatConj && nm <= 1, ch, nm, c4MarkFree(e), c4NestedSingle(e), c4PreNested(e)))
 			}
 		}
 		if rs.nn {
